@@ -19,7 +19,8 @@ const (
 	vfNScripts = 2
 )
 
-var vfQueries = [vfNQueries]Query{{Families: []string{"a"}}, {Families: []string{"b", "a"}, Aspect: font.Aspect{Weight: 700}}}
+// two family lists with the SAME concatenation and aspect: only the element-wise comparison in the rune cache tells them apart
+var vfQueries = [vfNQueries]Query{{Families: []string{"ab", "c"}}, {Families: []string{"a", "bc"}}}
 var vfScripts = [vfNScripts]language.Script{language.Latin, language.Arabic}
 
 // one optional entry per list, drawn symbolically up front and made concrete only where a history uses it
